@@ -22,6 +22,7 @@ import (
 
 //verif:stub helm.sh/helm/v4/pkg/repo.jsonOrYamlUnmarshal -> stubIndexUnmarshal
 //verif:stub github.com/Masterminds/semver/v3.NewVersion -> stubNewVersion
+//verif:stub github.com/Masterminds/semver/v3.StrictNewVersion -> stubStrictNewVersion
 //verif:stub github.com/Masterminds/semver/v3.NewConstraint -> stubNewConstraint
 //verif:stub (github.com/Masterminds/semver/v3.Constraints).Check -> stubConstraintCheck
 
@@ -32,8 +33,22 @@ func stubIndexUnmarshal(b []byte, i interface{}) error {
 	return nil
 }
 
-// D.D.D or D.D.D-rcN (N a digit); anything else is not a version.
+var _ = semver.StrictNewVersion
+
+// the lenient parser also takes the two loose spellings index files do contain:
+// a leading "v" (vD.D.D) and a missing patch number (D.D = D.D.0)
 func stubNewVersion(s string) (*semver.Version, error) {
+	if len(s) == 6 && s[0] == 'v' {
+		return stubStrictNewVersion(s[1:])
+	}
+	if len(s) == 3 {
+		return stubStrictNewVersion(s + ".0")
+	}
+	return stubStrictNewVersion(s)
+}
+
+// D.D.D, D.D.D-rcN or D.D.D+bN (N a digit); anything else is not a version.
+func stubStrictNewVersion(s string) (*semver.Version, error) {
 	if len(s) != 5 && len(s) != 9 && len(s) != 8 {
 		return nil, errors.New("Invalid Semantic Version")
 	}
@@ -106,7 +121,7 @@ func stubConstraintCheck(cs semver.Constraints, v *semver.Version) bool {
 }
 
 type entrySpec struct {
-	shape   int // 0 valid, 1 nil entry, 2 nil metadata, 3 invalid version string, 4 valid prerelease, 5 valid with build metadata
+	shape   int // 0 valid, 1 nil entry, 2 nil metadata, 3 invalid version string, 4 valid prerelease, 5 valid with build metadata, 6 valid with a leading v, 7 valid without patch number
 	version string
 }
 
@@ -173,6 +188,10 @@ func H18Index() {
 			es[k].version = ndVersionMeta("ver")
 		case 3:
 			es[k].version = "bogus"
+		case 6:
+			es[k].version = "v" + ndVersion("ver", false)
+		case 7:
+			es[k].version = ndVersion("ver", false)[:3]
 		}
 	}
 	stubIndex = buildIndex(es)
@@ -185,7 +204,7 @@ func H18Index() {
 	cvs := idx.Entries["c"]
 	nvalid := 0
 	for _, e := range es {
-		if e.shape == 0 || e.shape == 4 || e.shape == 5 {
+		if e.shape == 0 || e.shape >= 4 {
 			nvalid++
 		}
 	}
@@ -216,8 +235,9 @@ func H18Index() {
 		if best == nil {
 			vAssert("get-latest/none-is-error", gerr != nil)
 		} else {
+			vAssert("get-latest/found", gerr == nil && got != nil)
 			gv, _ := semver.NewVersion(got.Version)
-			vAssert("get-latest/highest-stable", gerr == nil && gv.Prerelease() == "" && gv.Compare(best) == 0)
+			vAssert("get-latest/highest-stable", gv.Prerelease() == "" && gv.Compare(best) == 0)
 		}
 	case 1: // exact version string (stable or prerelease)
 		var q string
@@ -258,8 +278,9 @@ func H18Index() {
 		if best == nil {
 			vAssert("get-range/none-is-error", gerr != nil)
 		} else {
+			vAssert("get-range/found", gerr == nil && got != nil)
 			gv, _ := semver.NewVersion(got.Version)
-			vAssert("get-range/highest-satisfying", gerr == nil && gv.Compare(best) == 0 && gv.Prerelease() == "")
+			vAssert("get-range/highest-satisfying", gv.Compare(best) == 0 && gv.Prerelease() == "")
 		}
 	}
 	vObservef("entries=%d kept=%d", n, len(cvs))
